@@ -48,3 +48,28 @@ def run(ctx):
     ok = SEARCH + "go" not in below and SEARCH + "idle" not in below
     ctx.ob(rid, "no-nested-search", ok, "" if ok else "a running search can reach Search::go / idle again (nested search -> second bestmove)", ctx.where(prog.fns[SEARCH + "check_messages"]),
            sample={"functions_below_a_running_search": len(below)})
+
+
+    # ---- R5: answers respect searchmoves
+    rid = "C07.R5"
+    ctx.rule(rid, "the root cannot answer from a transposition entry computed under different searchmoves: the table is cleared before the first search of every go, or the root filter precedes the table probe", floor=1)
+    bm = ctx.fn(rid, SEARCH + "best_move")
+    bcfg = Cfg(bm)
+    clears = [b for b in sorted(bcfg.reach) if bm["blocks"][b]["term"]["k"] == "call" and (bm["blocks"][b]["term"]["callee"].get("key") or "").endswith("TranspositionTable>::clear")]
+    searches = [b for b in sorted(bcfg.reach) if bm["blocks"][b]["term"]["k"] == "call" and bm["blocks"][b]["term"]["callee"].get("key") == SEARCH + "search_negamax"]
+    cleared = bool(searches) and all(any(bcfg.dominates(c, sb) and not bcfg.in_loop(c) for c in clears) for sb in searches)
+    go = prog.fns.get(SEARCH + "go")
+    if go and not cleared:
+        gcfg = Cfg(go)
+        gclears = [b for b in sorted(gcfg.reach) if go["blocks"][b]["term"]["k"] == "call" and (go["blocks"][b]["term"]["callee"].get("key") or "").endswith("TranspositionTable>::clear")]
+        gbm = [b for b in sorted(gcfg.reach) if go["blocks"][b]["term"]["k"] == "call" and go["blocks"][b]["term"]["callee"].get("key") == SEARCH + "best_move"]
+        cleared = bool(gbm) and all(any(gcfg.dominates(c, x) for c in gclears) for x in gbm)
+    ng = ctx.fn(rid, SEARCH + "search_negamax")
+    ncfg = Cfg(ng)
+    probes = [b for b in sorted(ncfg.reach) if ng["blocks"][b]["term"]["k"] == "call" and (ng["blocks"][b]["term"]["callee"].get("key") or "").endswith("TranspositionTable>::get")]
+    filters = [b for b in sorted(ncfg.reach) if ng["blocks"][b]["term"]["k"] == "call" and ng["blocks"][b]["term"]["callee"].get("key") == SEARCH + "filter_search_moves"]
+    filtered_first = bool(probes) and bool(filters) and all(any(ncfg.dominates(fb, pb) for fb in filters) for pb in probes)
+    ok = cleared or filtered_first
+    ctx.ob(rid, "searchmoves-vs-transposition-table", ok,
+           "" if ok else "search_negamax probes the transposition table at the root before the searchmoves filter, and the table is not cleared at the start of every go: an entry stored by an earlier search of the same position answers with a move outside searchmoves",
+           ctx.where(bm), sample={"table_cleared_per_go": cleared, "filter_precedes_probe": filtered_first})
